@@ -43,8 +43,8 @@ try:
     p2k = len([r for r in p2 if r['status'] == 'killed'])
     sw_summary = (f"{len(rs)} of them have a result: {cnt.get('nocompile', 0)} did not compile, {cnt['killed']} of the remaining {ran} were reported "
                   f"({', '.join(f'{k} {v}' for k, v in sorted(by.items(), key=lambda x: str(x[0])) if k)}), {cnt['survived']} survived"
-                  + (f", {cnt['machinery']} ended as a machinery exit of pass 1 (a check that looped inside one poll before the watchdog existed, or a process abort before the abort handler existed) and have not been run again" if cnt.get('machinery') else "")
-                  + f". Pass 2 has decided {len(p2)} mutants so far and reported {p2k} of them - survivors of pass 1 whose catching check had simply not been among the ones mapped to their file, or had been strengthened in between.")
+                  + (f", {cnt['machinery']} ended as a machinery exit (a check that looped, was killed by the kernel's OOM killer or died with a panicking worker before the watchdog, the abort handler, the memory cap and the Engine B monitor existed; `sweep/TRIAGE.md` says what the current harness makes of each)" if cnt.get('machinery') else "")
+                  + f". Pass 2 decided {len(p2)} mutants before the time ran out and reported {p2k} of them - survivors of pass 1 whose catching check had simply not been among the ones mapped to their file, or had been strengthened in between.")
 except Exception as e:
     pass
 tail = rd('05_tail.md').replace('@@SWEEPTOTAL@@', sw_total).replace('@@SWEEPSUMMARY@@', sw_summary)
